@@ -291,6 +291,13 @@ const ClockSkewGracePeriod = time.Minute * 2
 func genCertTemplateFromCSR(csr *x509.CertificateRequest, subjectIDs []string, ttl time.Duration, isCA bool, signingCert *x509.Certificate) (
 	*x509.Certificate, error,
 ) {
+	// The IDs are joined with "," and split again by BuildSubjectAltNameExtension: an ID that
+	// contains a comma would be issued as several SAN entries.
+	for _, id := range subjectIDs {
+		if strings.Contains(id, ",") {
+			return nil, fmt.Errorf("subject ID %q contains a comma", id)
+		}
+	}
 	subjectIDsInString := strings.Join(subjectIDs, ",")
 	var keyUsage x509.KeyUsage
 	extKeyUsages := []x509.ExtKeyUsage{}
